@@ -252,7 +252,7 @@ pub proof fn lemma_first_bad(q: Seq<ZMsg>, i: int, n: int)
 // (one element of `zoom_receivers`: (size, receiver, level writer)) becomes the parameter.
 #[verifier::loop_isolation(false)]
 //@extract fn bigtools/src/bbi/bbiwrite.rs write_zoom_vals
-//@presub /\A.*?\n[ \t]*(let mut sections = vec!\[\];)\s*let handle = runtime\.spawn\(async move \{\n(.*?)\n        \}\);\s*zooms\.push\(handle\);.*\Z/ => fn level_task(rcv: (u32, Mailbox<ZMsg>, LevelFile)) -> Result<(LevelFile, Vec<SecIter>, usize), ProcessDataError> {\n        \1\n\2\n} min=1 count=1
+//@presub /\A.*?\n[ \t]*(let mut sections = vec!\[\];)\s*let handle = runtime\.spawn\(async move \{\n(.*?)\n        \}\);.*\Z/ => fn level_task(rcv: (u32, Mailbox<ZMsg>, LevelFile)) -> Result<(LevelFile, Vec<SecIter>, usize), ProcessDataError> {\n        \1\n\2\n} min=1 count=1
 //@rule R1
 //@sub /let mut max_uncompressed_buf_size = 0;/ => let mut max_uncompressed_buf_size: usize = 0; min=0
 //@sub /while let Some\(r\) = rcv\.next\(\) \{/ => loop { let r = match rcv.next() { Some(x) => x, None => break }; min=0
